@@ -166,6 +166,32 @@ pub fn replay(args: &Args) {
             }
         });
         let mut bad = Vec::new();
+        // valid trees also with every chance weight scaled by 2^-1040 (subnormal) or 2^1000: same verdict, same compact
+        // game, evaluation and solving defined
+        if rules.is_empty() && model_err == "none" && n % 3 == 1 {
+            let ts = tree.scale_weights(if n % 2 == 0 { -1040 } else { 1000 });
+            let ts2 = ts.clone();
+            let r2 = util::catch(move || match tree::build(&ts2) {
+                Err(e) => Err(format!("{e:?}")),
+                Ok(game) => {
+                    let dump = canon_dump(&game.verif_dump());
+                    let ex = if light { Ok(()) } else { util::catch(std::panic::AssertUnwindSafe(|| exercise(&ts2, &game))).unwrap_or_else(|m| Err(format!("panic: {m}"))) };
+                    Ok((dump, ex))
+                }
+            });
+            match r2 {
+                Err(msg) => bad.push(json!({"class": "scaled-weights", "what": "from_root panicked on a valid tree with scaled chance weights", "observed": msg})),
+                Ok(Err(kind)) => bad.push(json!({"class": "scaled-weights", "what": "rejected a valid tree whose chance weights were scaled by a power of two", "observed": kind})),
+                Ok(Ok((dump, ex))) => {
+                    if !same(&canon_model(&case["build"]), &dump) {
+                        bad.push(json!({"class": "scaled-weights", "what": "compact game of a tree with scaled chance weights differs from the specified one", "observed": dump}));
+                    }
+                    if let Err(msg) = ex {
+                        bad.push(json!({"class": "scaled-weights", "what": "evaluation or solving undefined on an accepted tree with scaled chance weights", "observed": msg}));
+                    }
+                }
+            }
+        }
         let mut dev = false;
         let mut rules_sorted = rules.clone();
         rules_sorted.sort();
